@@ -1,4 +1,5 @@
 """C13 — the shipped API layer is a faithful translation of the shipped TL schema."""
+import json
 import os
 import re
 import subprocess
@@ -20,6 +21,19 @@ THEOREMS = [
     "Mtv.C13.nothing_extra_partial",
     "Mtv.C13.methods_match",
 ]
+RULE_E2E = (" End-to-end clause (harness/cmd/vh/c13e2e.go): the REAL methods of *telegram.Client, found by reflection, are called on a "
+            "client that resumed a stored session and talks over loopback TCP to a scripted peer. Every method that has a schema function "
+            "is called with zero-valued arguments (answer delivered plainly) and with distinguishable arguments, elements and conditional "
+            "parameters (answer delivered inside a container, gzip_packed, after the first copy of the request was rejected with "
+            "bad_server_salt, or both); every method with a Vector result with 0, 3 and 5000 elements x those ways of delivery; answers "
+            "larger than one inflate window (32768 bytes) packed, for the Vector methods and a sample of the result types that have a "
+            "string / bytes / vector to enlarge (thorough: all); the three hand-written wrappers around queries with object, Bool and "
+            "Vector results. The peer compares the request with the serialisation of the arguments made from the SCHEMA LINE of the "
+            "function (own reader of schemes/api_latest.tl, own TL writer) and answers with a value of the declared result type built "
+            "from the schema (smallest constructor; populated for short vectors). Judge: the call returns within the deadline, without "
+            "panic or error, a value whose schema serialisation is the payload sent. The Lean driver answers these operations with the "
+            "line that says so (after checking that the method is a row of the regenerated method table).")
+
 RULE = ("programs = rows of the regenerated tables: every definition of schemes/api_latest.tl and schemes/mtproto.tl "
         "(translator validated by printing each back to its source line; id = CRC-32 of the canonical line; parameter "
         "names against the Go field names position by position), every "
@@ -85,12 +99,45 @@ def report(ctx):
     return rep
 
 
+def e2e(ctx):
+    """the end-to-end clause: generated operations through the Go harness (real client methods against the scripted
+    peer, judged by the schema-directed oracle) and through the Lean driver"""
+    if not ctx.build_harness():
+        ctx.report_unexplained("go build of the harness against the working tree", ctx.obligations[-1][2][-800:])
+        return
+    if not os.path.exists(vlib.driver_path("C13")):
+        return
+    runs = []
+    corpus = os.path.join(vlib.VERIF, "corpus", SUB + ".ops")
+    if os.path.exists(corpus):
+        runs.append(("corpus", corpus))
+    runs.append(("gen", None))
+    all_mism = []
+    for label, opsf in runs:
+        mism, judged, meta = ctx.correspond(SUB, ops_file=opsf, label=label)
+        for v in judged:
+            ctx.report_failing_input(v, "client method called end-to-end against the scripted peer (%s)" % label)
+        all_mism += mism
+    explained = {v["op"] for v in ctx.violations if not v.get("no_input")} | ctx.known_ops
+    unexplained = [m for m in all_mism if m["op"] not in explained]
+    new = [m for m in all_mism if m["op"] not in ctx.known_ops]
+    ctx.obligation("end-to-end: every call of a client method sends the schema's request and returns the answer sent "
+                   "(Go result line == the line that says so, on every generated operation)",
+                   not new, ("%d operation(s) differ; first: %s" % (len(new), json.dumps(new[0])[:500]) if new else
+                             "%d operation(s) differ, all of them listed known findings" % len(all_mism) if all_mism else ""))
+    for m in unexplained[:1]:
+        ctx.report_unexplained("end-to-end operation no longer agrees: " + m["op"][:300],
+                               {"op": m["op"], "go": m["go"][:600], "lean": m["lean"][:600], "count": len(unexplained)})
+
+
 def run(ctx):
     ctx.assumptions += [
         "the schema translator is validated inside Lean (render = source line); that the .tl file consists of these lines is trusted",
         "the registry extractor (reflection through the verif hook) and the go/parser fact extractor are trusted",
         "five registered types are defined only in comments of the shipped schema: listed known finding",
-        "the end-to-end clause (each method called with distinguishable arguments against a scripted server) is not exercised by this check",
+        "end-to-end clause: the peer is scripted (one request at a time, loopback, an already-keyed session); the schema reader / TL writer / value "
+        "builder of harness/cmd/vh/c13e2e.go are trusted; argument and answer values are sampled (zero values, one populated set per method "
+        "and seed), not enumerated; timing: a call that has not returned 6 s after its answer went out counts as not returning",
     ]
     regen_ok = regen(ctx)
     ok = regen_ok and ctx.lean_check(MODULES, THEOREMS)
@@ -114,24 +161,26 @@ def run(ctx):
         if rep.get("dupids") == "true":
             ctx.report_unexplained("constructor ids are not unique / tables not sorted by id", rep)
         try:
-            ctx.evaluations = int(rep.get("ndefs", 0)) + int(rep.get("nreg", 0)) + int(rep.get("nmethods", 0))
+            ctx.evaluations += int(rep.get("ndefs", 0)) + int(rep.get("nreg", 0)) + int(rep.get("nmethods", 0))
             ctx.distinct = ctx.evaluations
         except ValueError:
             pass
         ctx.samples = [{"row": "inputPeerUser#7b8e7de6 user_id:int access_hash:long = InputPeer  <->  telegram.InputPeerUser{UserID int32; AccessHash int64}"},
                        {"driver_report": {k: rep.get(k) for k in list(KINDS) + ["counts", "dupids", "nametable", "fieldtable", "ndefs", "nreg", "nmethods"]}}]
+    e2e(ctx)
     concrete = [v for v in ctx.violations if not v.get("no_input")]
     if not ok and not concrete:
         broken = [o for o in ctx.obligations if not o[1]]
         for o in broken:
             ctx.report_unexplained("proof obligation no longer checks: " + o[0], o[2][:800])
-    return ctx.finish(rule=RULE, extra_trusted=["tools/tl2lean.py (validated by render = raw), harness/cmd/c13facts (go/parser), harness/cmd/regdump (reflection)"])
+    return ctx.finish(rule=RULE + RULE_E2E, extra_trusted=["tools/tl2lean.py (validated by render = raw), harness/cmd/c13facts (go/parser), harness/cmd/regdump (reflection)"])
 
 
 def replay(ctx, path):
-    import json
     rep = json.load(open(path))
     regen(ctx)
+    if any(op.startswith("c13.e2e") for op in rep.get("ops", [])):
+        return vlib.replay(ctx, SUB, path)
     r = report(ctx)
     if r is None:
         print("driver does not build")
